@@ -3863,19 +3863,17 @@ impl GlobalInferenceCtx<'_> {
                     return Ok(Err(ArgsContainDiagnostics));
                 }
 
-                let res = self
+                let Some(res) = self
                     .const_data(self.loc, *arg)
                     // the only reason const_data would return an Err
                     // is because of is_safe_to_compile, but we already called
                     // all of them.
                     .expect("is_safe_to_compile was done beforehand")
-                    .unwrap_or_else(|| {
-                        panic!(
-                            "@{} expr #{} didn't work",
-                            self.loc.debug(self.interner),
-                            arg.into_raw()
-                        )
-                    });
+                else {
+                    // the value can't be computed because the code it comes from contains an
+                    // error, which has been reported there
+                    return Ok(Err(ArgsContainDiagnostics));
+                };
                 let res = self.generics_arena.alloc(res);
 
                 self.inline_comptime_args.push(res);
